@@ -201,10 +201,12 @@ def outcome1(ctx: Ctx, chk) -> None:
 
     out_cells = tables.outgoing_cells(ctx)
     done = set()
+    cells_seen: set = set()
     for V in ctx.versions:
         for cell, cal in out_cells[V].items():
             if cal is None:
                 continue
+            cells_seen.add(cell)
             for f in tables.chain_defs(ctx, cal, V):
                 if f in done:
                     continue
@@ -232,7 +234,7 @@ def outcome1(ctx: Ctx, chk) -> None:
                 else:
                     p, ev = bad if bad else ([], [])
                     chk.refute(rule, key, f"a path through {f.qualname} has outcomes {ev} ({' -> '.join(g.path_text(p)[1:5])}): the message is {'silently discarded' if not ev else 'both parked and written'}", f.where)
-    chk.floor(rule, "outgoing handler definitions", len(done), 5)
+    chk.floor(rule, "outgoing commands with a handler", len(cells_seen), 5)
 
 
 def thorough(ctx: Ctx, chk) -> None:
